@@ -134,6 +134,13 @@ class Sched:
         self.steps += 1
         if self.steps > self.step_limit:
             raise StepLimit(f'more than {self.step_limit} scheduling steps')
+        for t in self.threads:
+            # a thread stalled until a condition on the tested code's state holds resumes at the first scheduling point
+            # where it does, before everything else (a preemption placed by a predicate instead of a step number)
+            if t.state == 'block' and isinstance(t.waiton, tuple) and t.waiton[0] == 'stall' and t.waiton[1]():
+                t.state = 'run'
+                t.timedout = False
+                return t
         r = self.runnable()
         if not r:
             timed = [t for t in self.threads if t.state == 'block' and t.deadline is not None]
@@ -207,6 +214,12 @@ class Sched:
         me.deadline = None if timeout is None or timeout < 0 else self.now + timeout
         self.switch('block')
         return not me.timedout
+
+    def stall(self, cond, timeout=None):
+        """the calling thread is not scheduled until cond() holds (evaluated at every scheduling point) -> False on time-out"""
+        if cond():
+            return True
+        return self.block(('stall', cond), timeout)
 
     def wake(self, pred):
         for t in self.threads:
